@@ -273,7 +273,7 @@ def spreading(repo, rep):
         rep.fail("R-C15-3", cp.file, cp.node.lineno, cp.qualname, "construct_partition", "the 2-D spectrum must be exactly frequency shape times spreading (missing values zero)")
 
 
-from ..astutil import monomial  # noqa: E402
+from ..astutil import monomial, factors  # noqa: E402
 
 
 def _locals(fi):
@@ -346,6 +346,47 @@ def _shape_terms(repo, fi):
     return pre, arg, oc, sw
 
 
+def tma_depth_function(repo, rep):
+    """R-C15-7: the TMA depth function is phi(kd) = tanh(kd)^2 / (1 + 2kd / sinh(2kd)) of the UNCLIPPED product kd = wavenuma(freq, dep) * dep
+    (phi -> 1 only asymptotically: evaluating it at a capped kd scales every deep-water frequency by phi(cap) < 1)."""
+    from ..astutil import resolve as _res
+    fi = repo.func(f"{FQ}.tma")
+    dep = "dep" if "dep" in fi.params else None
+    if dep is None:
+        raise AnalysisError("tma: depth parameter not found")
+
+    def kd_factors(e, depth=0):
+        """Multiset of factors of e after copy propagation: ('k',) for wavenuma(freq, dep), ('dep',), numeric constants."""
+        e = _res(fi.node, e) if isinstance(e, ast.Name) else e
+        out = []
+        for f_ in factors(e):
+            f_ = _res(fi.node, f_) if isinstance(f_, ast.Name) and f_.id not in fi.params else f_
+            if isinstance(f_, ast.BinOp) and isinstance(f_.op, ast.Mult) and depth < 4:
+                out += kd_factors(f_, depth + 1)
+            elif isinstance(f_, ast.Call) and call_name(f_).split(".")[-1] == "wavenuma" and [unparse(a_) for a_ in f_.args] == ["freq", dep]:
+                out.append("k")
+            elif isinstance(f_, ast.Name) and f_.id == dep:
+                out.append("dep")
+            else:
+                c_ = repo.const(fi.module, f_)
+                out.append(("const", c_) if isinstance(c_, (int, float)) else ("other", unparse(f_)[:40]))
+        return sorted(out, key=str)
+    seen = {"tanh": [], "sinh": []}
+    for c_ in ast.walk(fi.node):
+        if isinstance(c_, ast.Call) and call_name(c_).split(".")[-1] in seen and c_.args:
+            seen[call_name(c_).split(".")[-1]].append((c_, kd_factors(c_.args[0])))
+    if not seen["tanh"] or not seen["sinh"]:
+        raise AnalysisError("tma: tanh / sinh of kd not found")
+    good = all(f_ == ["dep", "k"] for _, f_ in seen["tanh"]) and all(f_ == sorted([("const", 2), "dep", "k"], key=str) for _, f_ in seen["sinh"])
+    if good:
+        rep.ok("R-C15-7", f"{fi.file}:{seen['tanh'][0][0].lineno} tma", "tanh(k dep), sinh(2 k dep) with k = wavenuma(freq, dep)", "depth function of the unclipped kd")
+    else:
+        bad = [c_ for c_, f_ in seen["tanh"] + seen["sinh"] if f_ not in (["dep", "k"], sorted([("const", 2), "dep", "k"], key=str))][0]
+        rep.fail("R-C15-7", fi.file, bad.lineno, fi.qualname, unparse(bad)[:90],
+                 "the TMA depth function must be evaluated at kd = wavenuma(freq, dep) * dep itself: a capped / altered argument makes phi < 1 in "
+                 "deep water, so TMA no longer reduces to JONSWAP there", anchor="tma:depth-function-argument")
+
+
 def twins(repo, rep):
     a, b = repo.func(f"{FQ}.jonswap"), repo.func("wavespectra.core.npstats.jonswap")
     ren = {"fpeak": "fp", "hsig": "hs"}
@@ -362,6 +403,25 @@ def twins(repo, rep):
     if facts["xarray"][0] != want_t1 or facts["xarray"][1] != (-1.25, (("fp", Fr(4)), ("freq", Fr(-4)))) or facts["xarray"][3] != ("LtE", "fp"):
         rep.fail("R-C15-4", a.file, a.node.lineno, a.qualname, str(facts["xarray"][:2]),
                  "JONSWAP is alpha g^2 (2 pi)^-4 f^-5 exp(-5/4 (f/fp)^-4) gamma^exp(...) with the sigma switch at f <= fp")
+    # scaling to a requested height uses the library's own Hs of the spectrum being scaled, in both twins:
+    #   factor = (target / hs(spectrum))^2   (npstats.jonswap)        fac = (hs / spec.spec.hs())^2  (utils.scaled, used by the xarray twin)
+    def _hs_square_ratio(fi, target):
+        for n in ast.walk(fi.node):
+            if isinstance(n, ast.BinOp) and isinstance(n.op, ast.Pow) and repo.const(fi.module, n.right) == 2 and isinstance(n.left, ast.BinOp) \
+                    and isinstance(n.left.op, ast.Div) and unparse(n.left.left) == target:
+                den = n.left.right
+                if isinstance(den, ast.Call) and call_name(den).split(".")[-1] == "hs":
+                    return n
+        return None
+    for fi_, target in ((b, "hsig"), (repo.func("wavespectra.core.utils.scaled"), "hs")):
+        hit = _hs_square_ratio(fi_, target)
+        if hit is not None:
+            rep.ok("R-C15-1", f"{fi_.file}:{hit.lineno} {fi_.short}", unparse(hit)[:60], "scaled by (target / library Hs of the same spectrum)^2: measured Hs == requested Hs, tail included")
+        else:
+            rep.fail("R-C15-1", fi_.file, fi_.node.lineno, fi_.qualname, "scaling to the requested height",
+                     f"{fi_.short} must scale by ({target} / hs(spectrum))^2 with the library's own Hs: any other normalisation (plain m0, trapezoid) "
+                     "drops the high-frequency tail term, so the measured Hs differs from the requested one on grids ending above 0.333 Hz",
+                     anchor=f"hs-scaling:{fi_.short}")
     # Pierson-Moskowitz = the same prefactor and exponential
     pm = repo.func(f"{FQ}.pierson_moskowitz")
     pt = _shape_terms(repo, pm)
@@ -411,6 +471,8 @@ def run(repo, rep, tier):
             raise
         rep.note(f"spreading rules stopped early ({e}); the violations above already decide the run")
     twins(repo, rep)
+    rep.rule("R-C15-7", "TMA: depth function of the unclipped kd = wavenuma(freq, dep) * dep")
+    tma_depth_function(repo, rep)
     rep.trust("Python ast; units algebra for the spreading function")
     rep.note("not decided: JONSWAP(gamma=1) = PM, deep-water TMA = JONSWAP, measured dm/dspr equal the requested ones (numeric identities)")
     return ("Static structural rules over the construct package: CFG order (scaling last), sign analysis of the shape expressions, "
